@@ -1,6 +1,7 @@
 (* Extract.v — extraction of the executable models (ExtrOcamlBasic only). *)
-From GK Require Import Base Treap Store.
+From GK Require Import Base Treap Store Codec Disk.
 Require Extraction.
 Require Import ExtrOcamlBasic.
 Extraction Language OCaml.
-Extraction "model.ml" Store.run Store.init Store.step Base.cmp_of Treap.elems.
+Extraction "model.ml" Store.run Store.init Store.step Base.cmp_of Treap.elems
+  Disk.decode_store Disk.conforms_v4 Disk.contents Codec.root_at Disk.scan Disk.flush_bytes Disk.revert_bytes Treap.num Treap.nby.
